@@ -17,14 +17,14 @@ Theorem sync_x_equal big st :
             forall k, xf_attrs d k = xf_attrs (xs_src st) k.
 Proof.
   unfold sync_file. destruct (xs_dst st) as [d|].
-  - destruct (N.eqb (xf_content d) (xf_content (xs_src st))) eqn:E; eexists; (split; [reflexivity|]); cbn.
-    + split; [apply N.eqb_eq; exact E|]. intro k. apply refresh_is_source.
+  - destruct (N.eqb (xf_content d) (xf_content (xs_src st)) && negb (xs_touched st)) eqn:E; eexists; (split; [reflexivity|]); cbn.
+    + apply andb_true_iff in E. destruct E as [E _]. split; [apply N.eqb_eq; exact E|]. intro k. apply refresh_is_source.
     + split; [reflexivity|]. intro k. apply transfer_x.
   - eexists. split; [reflexivity|]. cbn. split; [reflexivity|]. intro k. apply transfer_x.
 Qed.
 
 Lemma sync_src ros x big st : xs_src (sync_file ros x big st) = xs_src st.
-Proof. unfold sync_file. destruct (xs_dst st) as [d|]; [destruct (N.eqb _ _)|]; reflexivity. Qed.
+Proof. unfold sync_file. destruct (xs_dst st) as [d|]; [destruct (N.eqb _ _ && _)|]; reflexivity. Qed.
 
 (* any history that ends with a -X run *)
 Theorem history_x_equal ops big st :
@@ -42,8 +42,8 @@ Theorem sync_nox_copies_none ros big st d' k v :
   exists d, xs_dst st = Some d /\ xf_attrs d k = Some v /\ xf_content d = xf_content (xs_src st).
 Proof.
   unfold sync_file. destruct (xs_dst st) as [d|].
-  - destruct (N.eqb (xf_content d) (xf_content (xs_src st))) eqn:E; cbn; intros H Hk; inversion H; subst; cbn in Hk.
-    + exists d. split; [reflexivity|]. split; [exact Hk|]. apply N.eqb_eq. exact E.
+  - destruct (N.eqb (xf_content d) (xf_content (xs_src st)) && negb (xs_touched st)) eqn:E; cbn; intros H Hk; inversion H; subst; cbn in Hk.
+    + apply andb_true_iff in E. destruct E as [E _]. exists d. split; [reflexivity|]. split; [exact Hk|]. apply N.eqb_eq. exact E.
     + discriminate.
   - cbn. intros H Hk. inversion H; subst. cbn in Hk. discriminate.
 Qed.
@@ -52,6 +52,6 @@ Qed.
 Theorem sync_content ros x big st : exists d, xs_dst (sync_file ros x big st) = Some d /\ xf_content d = xf_content (xs_src st).
 Proof.
   unfold sync_file. destruct (xs_dst st) as [d|].
-  - destruct (N.eqb (xf_content d) (xf_content (xs_src st))) eqn:E; eexists; (split; [reflexivity|]); cbn; [apply N.eqb_eq; exact E | reflexivity].
+  - destruct (N.eqb (xf_content d) (xf_content (xs_src st)) && negb (xs_touched st)) eqn:E; eexists; (split; [reflexivity|]); cbn; [apply andb_true_iff in E; destruct E as [E _]; apply N.eqb_eq; exact E | reflexivity].
   - eexists. split; reflexivity.
 Qed.
